@@ -157,7 +157,7 @@ pub struct Verdict {
 /// order, be cut into consecutive groups of at most `limit`, with cut instants at least `p` apart,
 /// each cut lying between the last admission of one group and the first of the next?
 /// `None` = no such partition exists.
-fn partition_witness(adm: &[u64], limit: usize, p: u64) -> Option<Vec<usize>> {
+pub fn partition_witness(adm: &[u64], limit: usize, p: u64) -> Option<Vec<usize>> {
     let n = adm.len();
     if n == 0 {
         return Some(vec![]);
